@@ -201,7 +201,11 @@ class Run:
         cached_ack, cached_payload = self.cache
         expect_replay = cached_payload is not None and cached_ack == self.viewer_ack
         if f2.response is not None and f2.metadata.get("response_injected"):
-            # served by the proxy itself
+            # served by the proxy itself; the HTTP proxy process still runs its response stage for such a flow before the viewer gets it
+            items_r, exc_r = w.pump("response", f2.get_state())
+            if exc_r is not None or len(items_r) != 1:
+                return out + [("poll:response-handback", "proxy-served EventQueueGet response: %d hand-backs, exception %r" % (len(items_r), exc_r))]
+            f2 = HTTPFlow.from_state(items_r[0][2])
             got = llsd.parse_xml(f2.response.content)
             if not expect_replay:
                 out.append(("replay:unexpected", "proxy answered a poll (ack %r) itself with %r although nothing was lost" % (self.viewer_ack, got)))
@@ -310,6 +314,9 @@ class Run:
         if int(lose) > _repoll:
             self.nontrivial = True
             # the response never reached the viewer: it polls again with the same acknowledgement (and that answer may get lost too)
+            if _repoll == 1:
+                # meanwhile an addon queues an event: it waits for the next response from the simulator, the replay is the old response
+                self.inject(1, False)
             return self.poll([("plain", 0)], [], lose, 200, False, _repoll=_repoll + 1)
         if received_status == 200 and isinstance(received, dict) and "id" in received:
             self.viewer_ack = received["id"]
